@@ -37,7 +37,7 @@ type c11Witness struct {
 func init() {
 	core.Register(&core.Check{
 		ID:   "C11",
-		Rule: "documents: for each of 35 reference positions x 13 reference forms (relative, ./, ../ escaping the root directory, absolute path, file://, http://, https://, https:// with a query, https:// with an escaped slash in the path, //host, whole file, fragment, chain into a second file) one tree, plus documents whose non-reference URL fields (discriminator mapping, operationRef, externalValue, externalDocs, servers, contact/license, extensions) name fetchable locations, plus the C02 multi-site trees; each loaded with external references disallowed and allowed through LoadFromFile, LoadFromDataWithPath and LoadFromData with a recording reader that serves an in-memory universe of files and URLs. The online checker keeps, for every document already served, the set of locations obtained by resolving (RFC 3986) every $ref in it against its own location: disallowed => reads must be a subset of {root}; allowed => every read must be in that set. After every load with references allowed the same Loader is switched back to disallowed and used again through each entry point (reads must stay within {root}). Credentials (userinfo) of a document's location may only travel to references that keep its authority. A second pass runs the default reader on real files under strace (openat/connect) with canary files. Distinct = (position, form, entry point, switch); all are non-trivial. The OS-level pass also covers a scheme-relative reference to an existing local path and ValidationHandler.Load as an entry point.",
+		Rule: "documents: for each of 35 reference positions x 13 reference forms (relative, ./, ../ escaping the root directory, absolute path, file://, http://, https://, https:// with a query, https:// with an escaped slash in the path, //host, whole file, fragment, chain into a second file) one tree, plus documents whose non-reference URL fields (discriminator mapping, operationRef, externalValue, externalDocs, servers, contact/license, extensions) name fetchable locations, plus the C02 multi-site trees; each loaded with external references disallowed and allowed through LoadFromFile, LoadFromDataWithPath and LoadFromData with a recording reader that serves an in-memory universe of files and URLs. The online checker keeps, for every document already served, the set of locations obtained by resolving (RFC 3986) every $ref in it against its own location: disallowed => reads must be a subset of {root}; allowed => every read must be in that set. After every load with references allowed the same Loader is switched back to disallowed and used again through each entry point (reads must stay within {root}). Credentials (userinfo) of a document's location may only travel to references that keep its authority. A second pass runs the default reader on real files under strace (openat/connect) with canary files. Distinct = (position, form, entry point, switch); all are non-trivial. The OS-level pass also covers a scheme-relative reference to an existing local path and ValidationHandler.Load as an entry point. Kept objects: a schema / parameter of an earlier load placed into a second in-memory document on the same Loader with a new reference below it (3 first entry points x switch x 5 second calls).",
 		Assumptions: []string{
 			"the harness resolver (scheme/host kept, path joined to the directory of the containing document and cleaned) is a correct reading of RFC 3986 for these forms",
 			"strace -f sees every file open and socket connect of the child process",
